@@ -9,4 +9,5 @@ let table : (string * (Model.z list list -> Model.z list list)) list = [
   "subjectc", Model.subj_c_run;
   "subjecta", Model.subj_a_run;
   "observable", Model.obs_run;
+  "router", Model.router_run;
 ]
